@@ -3,11 +3,16 @@
 package poll
 
 import (
+	"time"
+
+	"github.com/resonatehq/resonate/internal/aio"
 	"github.com/resonatehq/resonate/internal/metrics"
+	"github.com/resonatehq/resonate/pkg/message"
 )
 
-// Verification hooks (add-only, compiled only with -tags verif through the /verif overlay): a
-// single-threaded driver over the production connection registry and PollWorker.Process.
+// Verification hooks (add-only, compiled only with -tags verif through the /verif overlay): the production
+// PollWorker loop (Start) on harness-owned channels. The hook touches struct fields only, never the
+// registry's methods, so that it keeps compiling when those are refactored.
 
 type VerifConn struct{ c *connection }
 
@@ -15,29 +20,78 @@ func (v *VerifConn) Chan() chan []byte { return v.c.ch }
 func (v *VerifConn) Group() string     { return v.c.group }
 func (v *VerifConn) Id() string        { return v.c.id }
 
-// NewVerifWorker builds a PollWorker with an empty registry and no goroutines.
-func NewVerifWorker(max int, m *metrics.Metrics) *PollWorker {
+type VerifLoop struct {
+	w          *PollWorker
+	sq         chan *aio.Message
+	connect    chan *connection
+	disconnect chan *connection
+	done       chan struct{}
+}
+
+// NewVerifLoop starts the production worker loop with an empty registry.
+func NewVerifLoop(max int, m *metrics.Metrics) *VerifLoop {
 	counter := m.AioConnection.WithLabelValues((&Poll{}).String())
-	return &PollWorker{
-		metrics: m,
-		counter: counter,
+	l := &VerifLoop{sq: make(chan *aio.Message, 16), connect: make(chan *connection, 16), disconnect: make(chan *connection, 16), done: make(chan struct{})}
+	l.w = &PollWorker{
+		sq:         l.sq,
+		metrics:    m,
+		counter:    counter,
+		connect:    l.connect,
+		disconnect: l.disconnect,
 		connections: connections{
 			max:   max,
 			cnt:   counter,
 			conns: map[string][]*connection{},
 		},
 	}
+	go func() { l.w.Start(); close(l.done) }()
+	return l
 }
 
-// VerifConnect registers a new connection exactly as the worker loop does for a value read from the connect channel.
-func (w *PollWorker) VerifConnect(group, id string, buffer int) *VerifConn {
+func drained[T any](ch chan T) {
+	for len(ch) > 0 {
+		time.Sleep(20 * time.Microsecond)
+	}
+}
+
+// Connect registers a connection the way the HTTP handler does (connect channel) and waits until the loop has applied it.
+func (l *VerifLoop) Connect(group, id string, buffer int) *VerifConn {
 	c := &connection{group: group, id: id, ch: make(chan []byte, buffer)}
-	w.connections.add(c)
+	l.connect <- c
+	drained(l.connect)
+	l.Barrier()
 	return &VerifConn{c}
 }
 
-// VerifDisconnect unregisters a connection exactly as the worker loop does for a value read from the disconnect channel.
-func (w *PollWorker) VerifDisconnect(v *VerifConn) { w.connections.rmv(v.c, true) }
+// Disconnect unregisters a connection the way the HTTP handler does when its request context ends.
+func (l *VerifLoop) Disconnect(v *VerifConn) {
+	l.disconnect <- v.c
+	drained(l.disconnect)
+	l.Barrier()
+}
 
-// VerifLen is the registry's connection count.
-func (w *PollWorker) VerifLen() int { return w.connections.len }
+// Send processes one message through the loop and returns once its Done callback has run.
+func (l *VerifLoop) Send(m *aio.Message) {
+	done := make(chan struct{})
+	inner := m.Done
+	m.Done = func(ok bool, err error) { inner(ok, err); close(done) }
+	l.sq <- m
+	<-done
+}
+
+// Barrier returns after the loop has processed a message sent after everything submitted so far.
+func (l *VerifLoop) Barrier() {
+	l.Send(&aio.Message{Type: message.Invoke, Data: []byte(`{"group":"\u0000verif-barrier"}`), Body: nil, Done: func(bool, error) {}})
+}
+
+// Len is the registry's connection count (call after a Barrier).
+func (l *VerifLoop) Len() int { return l.w.connections.len }
+
+// Stop shuts the loop down the way Poll.Stop does: the submission queue first, then the connection channels.
+func (l *VerifLoop) Stop() {
+	close(l.sq)
+	time.Sleep(200 * time.Microsecond)
+	close(l.connect)
+	close(l.disconnect)
+	<-l.done
+}
